@@ -4,9 +4,10 @@
    The implementation is KNOWN to deviate from ComparableVersion in general (refuted lemmas at
    the end, one per mechanism).  The equality is proved on the class [in_scope]:
        N(.N){0,3}  optionally followed by ONE group  sep W D
-   where every N has 1..18 digits, sep is '.' or '-', and either W is one of
-   alpha|beta|milestone|rc|cr|snapshot (any letter case) and D has 0..18 digits (glued), or W is
-   one of a|b|m and D has 1..18 digits; when there is a group, the value of the last N is not 0. *)
+   where every N is a non-empty digit run of ANY length (the implementation parses numbers with
+   math/big), sep is '.' or '-', and either W is one of alpha|beta|milestone|rc|cr|snapshot (any
+   letter case) and D is a possibly empty run of glued digits, or W is one of a|b|m and D is a
+   non-empty run of digits; when there is a group, the value of the last N is not 0. *)
 From Coq Require Import Lia.
 From Verif.Base Require Import Bytes BytesFacts GoNum Ord.
 From Verif.Eco.Maven Require Import LexPadFacts DecFacts.
@@ -28,7 +29,7 @@ Fixpoint scan_nums (k : nat) (s : bytes) : list bytes * bytes :=
   | _, _ => ([d], r)
   end.
 
-Definition num_ok (d : bytes) : bool := nonempty_digits d && (length d <=? 18)%nat.
+Definition num_ok (d : bytes) : bool := nonempty_digits d.
 
 Definition pre_words : list bytes :=
   [ $"alpha"; $"beta"; $"milestone"; $"rc"; $"cr"; $"snapshot" ].
@@ -46,7 +47,7 @@ Definition group_ok (last_num rest : bytes) : bool :=
   | sep :: r =>
       let w := take_while is_letter r in
       let dg := drop_while is_letter r in
-      Version.is_sep sep && forallb is_digit dg && (length dg <=? 18)%nat
+      Version.is_sep sep && forallb is_digit dg
       && word_ok (to_lower w) dg && negb (digits_val last_num =? 0)%N
   end.
 
@@ -101,7 +102,7 @@ Definition group_wf (ds : list bytes) (g : group) : Prop :=
   | NoGroup => True
   | Group sep w dg =>
       Version.is_sep sep = true /\ forallb is_letter w = true /\ forallb is_digit dg = true
-      /\ (length dg <=? 18)%nat = true /\ word_ok (to_lower w) dg = true
+      /\ word_ok (to_lower w) dg = true
       /\ digits_val (last ds []) <> 0%N
   end.
 
@@ -295,43 +296,10 @@ Proof.
     cbn. apply letter_not_digit. exact Hc.
 Qed.
 
-(* ---------- numbers of at most 18 digits fit ---------- *)
-
-Lemma digit_val_le9 c : is_digit c = true -> (digit_val c <= 9)%N.
-Proof.
-  intros H. apply digit_cases in H. simpl in H.
-  repeat (destruct H as [H|H]; [subst c; vm_compute; discriminate|]). contradiction.
-Qed.
-
-Lemma fold_dstep_bound d : forall acc,
-  forallb is_digit d = true ->
-  (fold_left dstep d acc < (acc + 1) * 10 ^ N.of_nat (length d))%N.
-Proof.
-  induction d as [|c d IH]; intros acc H.
-  - cbn. lia.
-  - cbn [forallb] in H. apply andb_true_iff in H. destruct H as [Hc Hd].
-    cbn [fold_left length]. specialize (IH (dstep acc c) Hd).
-    rewrite Nat2N.inj_succ, N.pow_succ_r'.
-    pose proof (digit_val_le9 c Hc) as L.
-    set (P := (10 ^ N.of_nat (length d))%N) in *.
-    assert (A : ((dstep acc c + 1) * P <= ((acc + 1) * 10) * P)%N).
-    { apply N.mul_le_mono_r. unfold dstep. lia. }
-    rewrite <- N.mul_assoc in A. lia.
-Qed.
+(* ---------- numbers of any length are tokens ---------- *)
 
 Lemma num_ok_token d : num_ok d = true -> digit_token d.
-Proof.
-  unfold num_ok. intros H. apply andb_true_iff in H. destruct H as [Hd Hl].
-  split; [exact Hd|].
-  apply nonempty_digits_spec in Hd. destruct Hd as [_ Hd].
-  apply Nat.leb_le in Hl.
-  pose proof (fold_dstep_bound d 0%N Hd) as B.
-  unfold digits_val. change (fun acc c => (acc * 10 + digit_val c)%N) with dstep.
-  assert (P : (10 ^ N.of_nat (length d) <= 10 ^ 18)%N).
-  { apply N.pow_le_mono_r; lia. }
-  assert (Q : (10 ^ 18 < two63)%N) by (vm_compute; reflexivity).
-  lia.
-Qed.
+Proof. intros H. exact H. Qed.
 
 Lemma nums_ok_tokens ds : forallb num_ok ds = true -> Forall digit_token ds.
 Proof.
@@ -390,18 +358,18 @@ Definition gtail_of (g : group) : gtail :=
   end.
 
 Lemma digits_val_zero_token dg :
-  forallb is_digit dg = true -> (length dg <=? 18)%nat = true -> dg <> [] ->
+  forallb is_digit dg = true -> dg <> [] ->
   elem_of dg = numN (digits_val dg).
 Proof.
-  intros Hd Hl Ne. apply elem_of_digits. apply num_ok_token. unfold num_ok.
-  rewrite Hl, andb_true_r. apply nonempty_digits_spec. split; assumption.
+  intros Hd Ne. apply elem_of_digits. apply num_ok_token. unfold num_ok.
+  apply nonempty_digits_spec. split; assumption.
 Qed.
 
 Theorem go_parse_grouped ds sep w dg :
   ds <> [] -> forallb num_ok ds = true -> group_wf ds (Group sep w dg) ->
   parse_core (render ds (Group sep w dg)) = Some (go_shape (vals ds) (gtail_of (Group sep w dg))).
 Proof.
-  intros Ne Hn [Hs [Hw [Hd [Hl [Wk Hz]]]]].
+  intros Ne Hn [Hs [Hw [Hd [Wk Hz]]]].
   pose proof (nums_ok_tokens ds Hn) as HF.
   unfold render.
   rewrite (parse_core_valid _ (join_nonempty ds _ Ne HF) (valid_join ds _ Ne HF)).
@@ -424,7 +392,7 @@ Proof.
     destruct (word_elem w [] Wk) as [_ Hq]. apply pre5_cases in Hq.
     repeat (destruct Hq as [Hq|Hq]); rewrite Hq; reflexivity.
   - cbn [cons_ne map]. rewrite Ew.
-    rewrite (digits_val_zero_token (x :: dg') Hd Hl) by discriminate.
+    rewrite (digits_val_zero_token (x :: dg') Hd) by discriminate.
     f_equal. set (n := digits_val (x :: dg')).
     change (map numN (map digits_val ds) ++ [Str (canon (to_lower w)); numN n])
       with (map numN (map digits_val ds) ++ [Str (canon (to_lower w))] ++ [numN n]).
@@ -711,7 +679,7 @@ Theorem cv_parse_grouped ds sep w dg :
   ds <> [] -> Forall (fun x => nonempty_digits x = true) ds -> group_wf ds (Group sep w dg) ->
   parse_cv (render ds (Group sep w dg)) = IList (cv_shape (vals ds) (gtail_of (Group sep w dg))).
 Proof.
-  intros Ne HF [Hs [Hw [Hd [Hl [Wk Hz]]]]].
+  intros Ne HF [Hs [Hw [Hd [Wk Hz]]]].
   destruct (split_last ds Ne) as [init [dl E]]. subst ds.
   rewrite last_last in Hz.
   assert (Nd : dl <> []).
@@ -830,7 +798,7 @@ Proof.
     + rewrite (cv_parse_plain ds Ne HF). unfold cv_shape. cbn [cv_tail].
       rewrite app_nil_r. reflexivity.
   - exists (vals ds), (gtail_of (Group sep w dg)). split.
-    + destruct Hg as [_ [_ [_ [_ [Wk _]]]]]. cbn [gtail_of tail_ok].
+    + destruct Hg as [_ [_ [_ [Wk _]]]]. cbn [gtail_of tail_ok].
       apply (word_elem w dg Wk).
     + split; [apply go_parse_grouped|apply cv_parse_grouped]; assumption.
 Qed.
@@ -860,17 +828,24 @@ Qed.
 (* the class is not empty of interest: examples of every form *)
 Example in_scope_examples :
   forallb in_scope [ $"1"; $"1.0.0"; $"007.2.3.4"; $"1-rc"; $"1.RC2"; $"2.5-SNAPSHOT"; $"1.2-cr01";
-                     $"3-a1"; $"3.1.B2"; $"1.0.1-m3"; $"1-alpha0"; $"123456789012345678.1-beta9" ]
+                     $"3-a1"; $"3.1.B2"; $"1.0.1-m3"; $"1-alpha0"; $"123456789012345678.1-beta9";
+                     $"1234567890123456789"; $"1.18446744073709551616"; $"9223372036854775808.0.1";
+                     $"1.99999999999999999999-rc100000000000000000000"; $"1-a00000000000000000001";
+                     $"123456789012345678901234567890.1-beta99999999999999999999" ]
   = true /\
   forallb (fun s => negb (in_scope s))
           [ $""; $"1."; $"1.2.3.4.5"; $"1.0-rc1"; $"1-a"; $"1-sp"; $"1-rc-1"; $"1-rc.1"; $"1-jre"; $"1-1";
-            $"1234567890123456789"; $"1-rc1x"; $"v1"; $"1 "; $"0-rc" ] = true.
+            $"1-rc1x"; $"v1"; $"1 "; $"0-rc"; $"00000000000000000000-rc"; $"1.00000000000000000000.b2";
+            $"18446744073709551616-sp"; $"1-rc18446744073709551616x" ] = true.
 Proof. vm_compute. split; reflexivity. Qed.
 
 Example in_scope_examples_conventional :
   forallb MavenCV.spec_valid
     [ $"1"; $"1.0.0"; $"007.2.3.4"; $"1-rc"; $"1.RC2"; $"2.5-SNAPSHOT"; $"1.2-cr01";
-      $"3-a1"; $"3.1.B2"; $"1.0.1-m3"; $"1-alpha0"; $"123456789012345678.1-beta9" ] = true.
+      $"3-a1"; $"3.1.B2"; $"1.0.1-m3"; $"1-alpha0"; $"123456789012345678.1-beta9";
+      $"1234567890123456789"; $"1.18446744073709551616"; $"9223372036854775808.0.1";
+      $"1.99999999999999999999-rc100000000000000000000"; $"1-a00000000000000000001";
+      $"123456789012345678901234567890.1-beta99999999999999999999" ] = true.
 Proof. vm_compute. reflexivity. Qed.
 
 (* ================= outside the class: the implementation deviates ================= *)
